@@ -6,7 +6,9 @@
 package vsync
 
 import (
+	"reflect"
 	"sync"
+	"unsafe"
 
 	"verif/internal/sched"
 )
@@ -15,12 +17,63 @@ import (
 // newest (what sync.Pool does on one P), oldest, or a fresh New(); "all": any pooled object or New().
 var PoolAnswers = "lifo-fifo-new"
 
+// Poison makes Put overwrite the object with its zero value before pooling it. A real sync.Pool may
+// hand a pooled object to another goroutine at once, which then overwrites every field, so any
+// read of an object after it was Put is a data race; zeroing makes such a read observable
+// deterministically, even in a single-threaded run (any change of behaviour under Poison proves a
+// use after Put).
+var Poison = false
+
+// PoisonDonor selects what Put writes into the object under Poison: false = the zero value;
+// true = the content of the object that was Put just before it on the same pool (valid-looking
+// content of another segment, as a concurrent reuse would leave behind; the zero value for the
+// first Put). Zero happens to look like "already consumed" to the sweep code, donor content does not.
+var PoisonDonor = false
+
+// PoisonScramble (under Poison, takes precedence over PoisonDonor): every integer field of the
+// released object is set to 3*v+7, every bool is flipped, every float gets 1e6 added; pointers
+// are kept. Unlike zeroing this never looks like a consumed or fresh object.
+var PoisonScramble = false
+
+func scramble(v reflect.Value) {
+	base := v.Addr().UnsafePointer()
+	var walk func(t reflect.Type, off uintptr)
+	walk = func(t reflect.Type, off uintptr) {
+		switch t.Kind() {
+		case reflect.Struct:
+			for i := 0; i < t.NumField(); i++ {
+				walk(t.Field(i).Type, off+t.Field(i).Offset)
+			}
+		case reflect.Int:
+			q := (*int)(unsafe.Add(base, off))
+			*q = 3**q + 7
+		case reflect.Int32:
+			q := (*int32)(unsafe.Add(base, off))
+			*q = 3**q + 7
+		case reflect.Int64:
+			q := (*int64)(unsafe.Add(base, off))
+			*q = 3**q + 7
+		case reflect.Uint8:
+			q := (*uint8)(unsafe.Add(base, off))
+			*q = *q + 1
+		case reflect.Bool:
+			q := (*bool)(unsafe.Add(base, off))
+			*q = !*q
+		case reflect.Float64:
+			q := (*float64)(unsafe.Add(base, off))
+			*q = *q + 1e6
+		}
+	}
+	walk(v.Type(), 0)
+}
+
 // Pool models sync.Pool.
 type Pool struct {
 	New        func() any
 	mu         sync.Mutex
 	items      []any
 	Gets, Puts int
+	donor      reflect.Value
 }
 
 var pools []*Pool
@@ -45,7 +98,7 @@ func Pools() []*Pool { return pools }
 func (p *Pool) Items() []any { return p.items }
 
 // Drain empties the pool (harness: fresh process state).
-func (p *Pool) Drain() { p.items = nil }
+func (p *Pool) Drain() { p.items = nil; p.donor = reflect.Value{} }
 
 func (p *Pool) Get() any {
 	register(p)
@@ -93,6 +146,20 @@ func (p *Pool) Get() any {
 func (p *Pool) Put(x any) {
 	register(p)
 	sched.Point("Pool.Put")
+	if Poison {
+		if v := reflect.ValueOf(x); v.Kind() == reflect.Ptr && !v.IsNil() {
+			cur := reflect.New(v.Elem().Type()).Elem()
+			cur.Set(v.Elem())
+			if PoisonScramble {
+				scramble(v.Elem())
+			} else if PoisonDonor && p.donor.IsValid() && p.donor.Type() == v.Elem().Type() {
+				v.Elem().Set(p.donor)
+			} else {
+				v.Elem().Set(reflect.Zero(v.Elem().Type()))
+			}
+			p.donor = cur
+		}
+	}
 	p.mu.Lock()
 	p.Puts++
 	p.items = append(p.items, x)
